@@ -127,6 +127,45 @@ pub fn bytes_via_file(f: impl FnOnce(&Path) -> bool) -> Option<Vec<u8>> {
 }
 
 // ------------------------------------------------------------------------------------------------
+// parsers with inputs that kill the process (see `prescreen` in main.rs)
+
+/// Name fragments of the parsers for which some mutant is known to end in an allocation-failure abort.
+/// (Everything that reads a length / count / original-size field and allocates or loops on it.)
+const FATAL_INPUT_PARSERS: [&str; 27] = [
+    "ComplexTypeSerializer::",
+    "NestedSerialize::",
+    "SerializableType::deserialize<",
+    "SmartPtrSerializer::",
+    "Versioned",
+    "VersionManager::",
+    "VersionProxy<",
+    "::read_length_prefixed_",
+    "_sequence",
+    "CompressorFactory[Huffman]",
+    "CompressorFactory[Rans]",
+    "CompressorFactory[Dictionary]",
+    "CompressorFactory[Hybrid]",
+    "ContextualHuffmanEncoder::deserialize",
+    "Dictionary::deserialize + ",
+    "DictionaryCompressor::decompress",
+    "FseDecoder::",
+    "fse_",
+    "FseCompressor::",
+    "remove_fse_compression",
+    "SimdLz77",
+    "simd_lz77",
+    "PaZipCompressor::",
+    "ZipOffsetBlobStore::",
+    "MmapVec<",
+    "Rans64Decoder<",
+    "Rans64Encoder",
+];
+
+pub fn dies_on_some_inputs(name: &str) -> bool {
+    FATAL_INPUT_PARSERS.iter().any(|f| name.contains(f))
+}
+
+// ------------------------------------------------------------------------------------------------
 // cost control for decompression bombs
 
 /// Address-space limit (MiB) for parsers that can be driven into producing output / looping in
@@ -157,6 +196,21 @@ pub fn limit_address_space() {
         }
     }
 }
+
+/// Oracle correction for the bincode-based loaders.  serde's `size_hint::cautious` pre-allocates at most
+/// 1 MiB worth of elements whatever the length prefix says; for `HashMap<u32, PatternInfo>` hashbrown rounds
+/// that up to one 1.8 MiB table.  That is a fixed cap, not an allocation proportional to an unvalidated
+/// length, but it sits just above the engine's threshold (64 * input + 1 MiB) for these ~100-byte inputs.
+/// Called after the parser returned: if nothing larger than `limit` was requested the high-water mark is
+/// reset (`watch_allocations(true)` zeroes it and keeps watching); anything larger stays visible.
+pub fn forgive_bounded_prealloc(limit: usize) {
+    if zverif::alloc::max_single_allocation() <= limit {
+        zverif::alloc::watch_allocations(true);
+    }
+}
+
+/// serde's cautious pre-allocation (1 MiB of elements) plus hashbrown's power-of-two rounding
+pub const SERDE_CAUTIOUS_CAP: usize = 4 << 20;
 
 // ------------------------------------------------------------------------------------------------
 
